@@ -284,19 +284,28 @@ def learn_routing(p, plan, x, names, vector):
 # --------------------------------------------------------------------------
 
 def simpson_cum(vals, h, per):
-    """Cumulative composite Simpson over consecutive blocks of `per` (even) intervals of
-    width h, and the same on every other node; returns (cum, cum_coarse) at block ends."""
+    """Cumulative composite Simpson over consecutive blocks of `per` intervals of width h
+    (`per` divisible by 4).  Returns (cum, cum - err) at the block ends, where
+    err = |S_h - S_2h| + |S_2h - S_4h|/16 accumulated over the blocks: in the asymptotic regime the
+    second term repeats the first (error of S_h is about |S_h - S_2h|/15); if the grid is too
+    coarse for the integrand it is the larger one, so an accidental agreement of S_h and S_2h does
+    not shrink the tolerance."""
     nb = (len(vals) - 1) // per
     cum = [0.0]
-    cumc = [0.0]
+    err = [0.0]
+
+    def simp(v, hh):
+        return (v[0] + v[-1] + 4 * v[1:-1:2].sum() + 2 * v[2:-1:2].sum()) * hh / 3
+
     for b in range(nb):
         v = vals[b * per:(b + 1) * per + 1]
-        s = v[0] + v[-1] + 4 * v[1:-1:2].sum() + 2 * v[2:-1:2].sum()
-        c = v[::2]
-        sc = c[0] + c[-1] + 4 * c[1:-1:2].sum() + 2 * c[2:-1:2].sum()
-        cum.append(cum[-1] + s * h / 3)
-        cumc.append(cumc[-1] + sc * (2 * h) / 3)
-    return numpy.array(cum), numpy.array(cumc)
+        s1 = simp(v, h)
+        s2 = simp(v[::2], 2 * h)
+        s4 = simp(v[::4], 4 * h) if per % 4 == 0 and per >= 8 else s2
+        cum.append(cum[-1] + s1)
+        err.append(err[-1] + abs(s1 - s2) + abs(s2 - s4) / 16.0)
+    cum = numpy.array(cum)
+    return cum, cum - numpy.array(err)
 
 
 # --------------------------------------------------------------------------
